@@ -2,10 +2,12 @@
 import json
 from gen import common, life, sysattr
 
-LEAN_MODULE = "XcmModel.Props.C08"
+LEAN_MODULE = ["XcmModel.Props.C08", "XcmModel.Props.Utls"]
 THEOREMS = [
     "XcmModel.C08.finishLoop_neutral", "XcmModel.C08.C08_create_balanced", "XcmModel.C08.C08_accept_balanced",
     "XcmModel.C08.C08_close_balanced", "XcmModel.C08.sysStep_inv", "XcmModel.C08.C08_histories_balanced",
+    "XcmModel.UtlsProps.C08_utls_init_balanced", "XcmModel.UtlsProps.C08_utls_connect_balanced", "XcmModel.UtlsProps.C08_utls_connect_badaddr_balanced",
+    "XcmModel.UtlsProps.C08_utls_server_balanced", "XcmModel.UtlsProps.C08_utls_accept_balanced", "XcmModel.UtlsProps.C08_utls_close_balanced",
 ]
 PROTOS = ["ux", "uxf", "tcp", "tls", "utls", "btcp", "btls"]
 
@@ -32,6 +34,14 @@ def run(ctx):
     for o2, l2 in zip(uops, m):
         ctx.nontriv(("life", o2.split()[0], l2.split("|")[1][:60] if "|" in l2 else l2))
     ctx.sample({"harness": "unit_life", "ops": uops[:8], "model_out": m[:8]})
+    # the one transport with ladders of its own over other transports: utls and its two sub-sockets
+    from gen import utls as _utls
+    _utls.run_part(ctx, 60 if quick else 3000)
+    ctx.rule += ("  unit_utls: the real xcm_tp_utls.c over two logging mock sub-transports ('ux', 'tls') reached through the real xcm_tp.c: "
+                 "every answer combination of init / connect (fallback on ECONNREFUSED) / server (fixed and kernel-allocated port) / accept / "
+                 "close / cleanup, then random histories; the trace of sub-socket calls and the two sub-socket pointers compared with the Lean "
+                 "Utls model; a ledger in the harness checks the sub-transport contract (close before destroy of anything that holds "
+                 "resources, destroy only after a failed connect/server/accept, no use of a dead sub-socket).")
     exe = life.build()
     res = life.sweep(ctx, exe, PROTOS, [ctx.seed % 3] if quick else [0, 1, 2], not quick)
     ctx.traces += 1
